@@ -56,3 +56,42 @@ Proof. exact decimal_round_trip. Qed.
 Theorem C13_defaults_tie :
   Consts.default_pieces = Tak.default_pieces /\ Consts.default_caps = Tak.default_caps.
 Proof. exact defaults_tie. Qed.
+
+(* ---- the same about parse_tps / format_tps REGENERATED FROM THE SOURCE (gen/TpsGen.v, written by harness/py2coq.py from the current tps.py on every run against model/PySem.v; proofs/TpsGenEq.v) ---- *)
+From Coq Require Import ZArith List Bool.
+From TV Require Import model.Tak model.PySem model.Tps spec.TpsSpec proofs.GameGenEq proofs.TpsGenEq.
+From TV Require gen.GameGen gen.TpsGen.
+(* the translated reader IS the model's reader, for EVERY string (any code points, any length) *)
+Theorem C13_source_parse_tps_eq :
+  forall s, TpsGen.parse_tps s = embed_tps (Tps.parse_tps s).
+Proof. exact gen_parse_tps_eq. Qed.
+(* "no other error escapes": a position or IllegalTPS, nothing else, for every string *)
+Theorem C13_source_parse_total :
+  forall s, (exists p, TpsGen.parse_tps s = Ok p) \/ TpsGen.parse_tps s = Illegal.
+Proof. exact gen_parse_total. Qed.
+(* the translated writer IS the model's writer whenever the numbers it prints are below the str() digit limit *)
+Theorem C13_source_format_tps_eq :
+  forall p, size p < 10 ^ 4300 -> Z.abs (ply p / 2 + 1) < 10 ^ 4300 ->
+  TpsGen.format_tps p = Ok (Tps.format_tps p).
+Proof. exact gen_format_tps_eq. Qed.
+(* format then parse returns the position: through the translated writer and the translated reader *)
+Theorem C13_source_parse_format :
+  forall p, wf p -> standard_reserves p ->
+  exists t, TpsGen.format_tps p = Ok t /\ TpsGen.parse_tps t = Ok p.
+Proof. exact gen_parse_format. Qed.
+(* parsing canonical TPS then formatting returns the same text *)
+Theorem C13_source_format_parse_canonical :
+  forall s p,
+  TpsGen.parse_tps s = Ok p -> canonical s -> TpsGen.format_tps p = Ok s.
+Proof. exact gen_format_parse_canonical. Qed.
+(* the text means what the TPS standard says *)
+Theorem C13_source_parse_meaning :
+  forall s p, TpsGen.parse_tps s = Ok p ->
+  size p = text_size s /\ zlen (board p) = size p * size p /\
+  (forall x y, 0 <= x < size p -> 0 <= y < size p -> sq p x y = stack_of_text (cell_text s x y)) /\
+  ply p = 2 * (dec_value (move_field s) - 1) + dec_value (who_field s) - 1.
+Proof. exact gen_parse_meaning. Qed.
+(* malformed text is refused with IllegalTPS *)
+Theorem C13_source_parse_refuses :
+  forall s, must_refuse s -> TpsGen.parse_tps s = Illegal.
+Proof. exact gen_parse_refuses. Qed.
